@@ -891,6 +891,19 @@ func (ms *moduleStore) getModule(name string) (moduleStoreItem, bool) {
 	return indexes, ok
 }
 
+// truncate removes the modules added after the module count was n.
+func (ms *moduleStore) truncate(n int) {
+	if ms == nil || ms.count <= n {
+		return
+	}
+	for name, item := range ms.store {
+		if item.moduleIndex >= n {
+			delete(ms.store, name)
+		}
+	}
+	ms.count = n
+}
+
 func (ms *moduleStore) reset() {
 	if ms == nil {
 		return
